@@ -356,6 +356,12 @@ def handleDocument (op : String) (j : Json) : Except String Json := do
   | .ok d =>
     match op with
     | "doc.codec" => pure (Json.mkObj [("ok", encDoc d)])
+    | "doc.hyps" =>
+      -- the hypotheses of Props/C05.lean evaluated on this document (`validB_iff` ties `valid` to `Valid`)
+      pure (Json.mkObj [("valid", Json.bool (validB d)), ("ordered", Json.bool (decide (OrderedCats d))),
+        ("exitsByCats", Json.bool (decide (ExitsByCats d))), ("untyped", Json.bool (decide (UntypedFields d))),
+        ("plain", Json.bool (decide (PlainGroups d))), ("wired", Json.bool (decide (CatsWired d))),
+        ("lossless", Json.bool (lossless d))])
     | "doc.roundtrip" =>
       match roundtrip d with
       | .ok o => pure (Json.mkObj [("ok", encDoc o)])
